@@ -277,6 +277,66 @@ class Execution:
             if entry is not None:
                 entry['weak'] = True
 
+    def make_system(self, seed):
+        import numpy as np
+        import vermouth
+        from vermouth.molecule import Molecule
+        rng = core.sub_rng(seed, 'system')
+        system = vermouth.System()
+        for m in range(rng.randint(1, 2)):
+            mol = Molecule(nrexcl=1)
+            mol.meta['moltype'] = 'mol_%d' % m
+            for a in range(rng.randint(1, 4)):
+                mol.add_node(a, atomname='A%d' % a, resname=rng.choice(['ALA', 'GLY']), resid=1 + a // 2, chain='A',
+                             atype='P1', charge_group=a + 1, atomid=a + 1,
+                             position=np.array([rng.uniform(0, 5), rng.uniform(0, 5), rng.uniform(0, 5)]))
+            if len(mol) > 1:
+                mol.add_edge(0, 1)
+                mol.add_interaction('bonds', (0, 1), ['1', '0.47', '1250'])
+            system.molecules.append(mol)
+        return system
+
+    def op_writer(self, kind, rel, seed, relative):
+        """A real library writer writes through the deferred writer (it must defer like a raw handle)."""
+        import io
+        import vermouth
+        from vermouth.gmx.gro import write_gro
+        from vermouth.gmx.itp import write_molecule_itp
+        if rel in self.model.tainted:
+            return
+        target = os.path.join(self.root, rel)
+        if relative:
+            target = os.path.relpath(target, self.cwd)
+        system = self.make_system(seed)
+        scratch = os.path.join(self.shadow, 'writer-out')
+        if kind == 'pdb':
+            vermouth.pdb.write_pdb(system, scratch, defer_writing=False)
+            got = self.sut(vermouth.pdb.write_pdb, system, target, defer_writing=True)
+        elif kind == 'gro':
+            write_gro(system, scratch, defer_writing=False)
+            got = self.sut(write_gro, system, target, defer_writing=True)
+        else:
+            buf = io.StringIO()
+            write_molecule_itp(system.molecules[0], buf, header=['vsim'])
+            with open(scratch, 'w') as handle:
+                handle.write(buf.getvalue())
+
+            def write_itp():
+                with self.fw.deferred_open(target, 'w') as handle:
+                    write_molecule_itp(system.molecules[0], handle, header=['vsim'])
+            got = self.sut(write_itp)
+        with open(scratch) as handle:
+            text = handle.read()
+        expected = self.model.open(rel, 'w')
+        self.events.append(['writer', kind, rel, got[0]])
+        if got[0] == 'raise':
+            if expected[0] == 'handle':
+                expected[1].close()
+            raise Violation('writer-failed', expected='%s written' % kind, actual=repr(got[1]))
+        expected[1].write(text)
+        expected[1].close()
+        self.stats.probes['real_writer_' + kind] += 1
+
     def op_handle(self, op, hid, *args):
         if hid not in self.handles:
             return
@@ -454,6 +514,8 @@ class Execution:
                     self.op_open(op[1], op[2], op[3], bool(op[4]) if len(op) > 4 else False)
                 elif kind in ('write', 'read', 'seek', 'close'):
                     self.op_handle(kind, *op[1:])
+                elif kind == 'writer':
+                    self.op_writer(op[1], op[2], op[3], bool(op[4]))
                 elif kind == 'chdir':
                     self.cwd = os.path.join(self.root, op[1])
                 elif kind == 'finalise':
@@ -502,7 +564,7 @@ class C07Writer(core.Check):
             'then once per crash point of every finalisation (complete per history), per torn-write cut and per sampled '
             'I/O-error placement. distinct = distinct scenario digest; non-trivial = at least one finalisation that '
             'touched a pre-existing file or fired at least one fault')
-    probes_expected = ['xdev_copy_path', 'backup_gap_chosen', 'append_torn_mid_buffer', 'retry_after_error',
+    probes_expected = ['real_writer_pdb', 'real_writer_gro', 'real_writer_itp', 'xdev_copy_path', 'backup_gap_chosen', 'append_torn_mid_buffer', 'retry_after_error',
                        'crash_between_backup_and_move', 'r_plus_existing', 'reopen_pending', 'relative_after_chdir',
                        'second_round']
 
@@ -563,6 +625,10 @@ class C07Writer(core.Check):
                     open_handles[hid] = mode
                     if any(c in mode for c in 'wa+'):
                         pending.add(p)
+                elif r < 0.47:
+                    p = rng.choice(paths)
+                    ops.append(['writer', rng.choice(['pdb', 'gro', 'itp']), p, rng.randrange(1 << 20), int(rng.random() < 0.3)])
+                    pending.add(p)
                 elif r < 0.75:
                     h = rng.choice(sorted(open_handles))
                     tagn += 1
